@@ -24,6 +24,7 @@ type c03Cfg struct {
 	SSRCs      []uint32 `json:"ssrcs"`
 	NoNack     []bool   `json:"no_nack"` // stream did not negotiate NACK
 	TailMs     int      `json:"tail_ms"`
+	Rebind     []int    `json:"rebind,omitempty"` // per stream: after this many packets the stream is unbound and continues under a new SSRC (0: never); one straggler still arrives through the old reader
 }
 
 type c03Op struct {
@@ -128,6 +129,13 @@ func (c03) Gen(seed int64, tier string, avoid []string) *Plan {
 		}
 	}
 	sort.SliceStable(ops, func(i, j int) bool { return ops[i].AtUs < ops[j].AtUs })
+	for range cfg.SSRCs {
+		k := 0
+		if chance(r, 150) {
+			k = 2 + r.Intn(10)
+		}
+		cfg.Rebind = append(cfg.Rebind, k)
+	}
 	p.Cfg = mustJSON(cfg)
 	setOps(p, ops)
 	return p
@@ -144,6 +152,7 @@ type c03Model struct {
 	count   map[int64]int  // times requested so far (limit mode)
 	count16 map[uint16]int // same, keyed by the 16-bit value (lenient side of the completeness check)
 	track   verTrack
+	dead    bool // the stream was unbound: what is still said about it is C11's business
 }
 
 //go:norace
@@ -247,7 +256,13 @@ func (c03) Run(e *Env) {
 		sops := byStream[i]
 		idx := 0
 		var lastErr bool
+		var straggler []byte
 		inner := interceptor.RTPReaderFunc(func(b []byte, a interceptor.Attributes) (int, interceptor.Attributes, error) {
+			if straggler != nil {
+				n := copy(b, straggler)
+				straggler = nil
+				return n, a, nil
+			}
 			o := sops[idx]
 			idx++
 			simrt.SleepUntil(us(o.AtUs))
@@ -263,9 +278,34 @@ func (c03) Run(e *Env) {
 			return n, a, nil
 		})
 		rd := ic.BindRemoteStream(info, inner)
+		rebindAt := 0
+		if i < len(cfg.Rebind) {
+			rebindAt = cfg.Rebind[i]
+		}
 		readers = append(readers, e.Go(fmt.Sprintf("reader%d", i), func() {
 			buf := make([]byte, 1500)
 			for idx < len(sops) {
+				if rebindAt > 0 && idx == rebindAt {
+					// the stream ends and continues under a new SSRC; the old reader is still drained once
+					rebindAt = 0
+					e.Fault("unbind_rebind_with_straggler")
+					old := rd
+					c03Dead(m)
+					ic.UnbindRemoteStream(info)
+					ssrc += 50000
+					m = &c03Model{recvAt: map[int64]int{}, count: map[int64]int{}, count16: map[uint16]int{}}
+					c03AddModel(models, ssrc, m)
+					info = streamInfo(ssrc, 96, 90000, fb...)
+					rd = ic.BindRemoteStream(info, inner)
+					if _, _, err := rd.Read(buf, interceptor.Attributes{}); err == nil || errors.Is(err, errInjected) {
+						if !lastErr {
+							c03Returned(m)
+						}
+					}
+					straggler = rtpBytes(ssrc-50000, 96, sops[idx-1].Seq+uint16(cfg.Size)/2+700, 1, 4)
+					old.Read(buf, interceptor.Attributes{})
+					continue
+				}
 				_, _, err := rd.Read(buf, interceptor.Attributes{})
 				if err != nil && !errors.Is(err, errInjected) {
 					e.Violatef("oracle", "c03:read-error", "unexpected read error: %v", err)
@@ -293,6 +333,12 @@ func c03Arrive(m *c03Model, seq uint16) { m.add(seq); m.track.inner++ }
 func c03Returned(m *c03Model) { m.track.outer++ }
 
 //go:norace
+func c03Dead(m *c03Model) { m.dead = true }
+
+//go:norace
+func c03AddModel(models map[uint32]*c03Model, ssrc uint32, m *c03Model) { models[ssrc] = m }
+
+//go:norace
 func c03Check(e *Env, cfg c03Cfg, models map[uint32]*c03Model, wake map[int]map[uint32]int, pkts []rtcp.Packet) {
 	g := simrt.Cur()
 	for _, pkt := range pkts {
@@ -306,8 +352,11 @@ func c03Check(e *Env, cfg c03Cfg, models map[uint32]*c03Model, wake map[int]map[
 			e.Violatef("oracle", "c03:unknown-ssrc", "NACK for unknown SSRC %d", n.MediaSSRC)
 			continue
 		}
+		if m.dead {
+			continue
+		}
 		for i, s := range cfg.SSRCs {
-			if s == n.MediaSSRC && cfg.NoNack[i] {
+			if (s == n.MediaSSRC || s+50000 == n.MediaSSRC) && cfg.NoNack[i] {
 				e.Violatef("oracle", "c03:nack-not-negotiated", "NACK for stream %d which did not negotiate NACK", s)
 			}
 		}
